@@ -110,13 +110,17 @@ CHECKS["C10"] = {
     "level": "exploration",
     "rule": ("Codec half: error values from the grammar (message: empty/ASCII/UTF-8/arbitrary bytes incl. NUL, CR/LF and '%'/64 KiB; code none/0/1/2/12/2^32/2^63/2^64-1/random; "
              "code attached under 0..6 wrapper layers of six kinds incl. opaque ones; hostile shapes) through drpcerr.Code, MarshalError, UnmarshalError: layout is 8-byte big-endian code + message, "
-             "message and code survive, Code finds the attached code at any transparent depth (and 0 under an opaque layer). Non-trivial: depth >= 2, code >= 2^32, message >= 128 bytes or with special bytes, or a hostile shape."),
+             "message and code survive, Code finds the attached code at any transparent depth (and 0 under an opaque layer). Non-trivial: depth >= 2, code >= 2^32, message >= 128 bytes or with special bytes, or a hostile shape. "
+             "End-to-end half: a hand-written service description with the four method shapes is registered with the real mux and served over the simulated connection under drawn delivery schedules; the handler sends k in 0..4 messages and then returns nil or an error from the grammar (also together with a response value), "
+             "or the dispatcher itself fails (unknown RPC, request the encoding rejects - expected text obtained by calling the mux directly with a stub stream). The client error's Error() must equal the handler error's Error() byte for byte, its code the spec-derived code, the k messages arrive first in order, a nil-returning handler never yields a client error, and a probe RPC succeeds afterwards."),
     "assumptions": ["chains deeper than 99 layers are don't-care for the code (the unwrap loop is bounded at 100); only termination and message identity are asserted there"],
     "subs": [
         {"test": "TestC10ErrCodec", "prop": "C10/codec", "quick": 60000, "thorough": 3000000, "shards_quick": 4, "shards_thorough": 8},
         {"test": "TestC10UnmarshalErr", "prop": "C10/unmarshal", "quick": 20000, "thorough": 1000000, "shards_quick": 2, "shards_thorough": 4},
+        {"test": "TestC10EndToEnd", "prop": "C10/end_to_end", "pkg": "./conn", "quick": 16000, "thorough": 600000, "shards_quick": 16, "shards_thorough": 16, "gomaxprocs": 1},
     ],
-    "floors": {"C10/codec": {"depth_2plus": 0.3, "code_ge_2_32": 0.1, "special_bytes": 0.2}},
+    "floors": {"C10/codec": {"depth_2plus": 0.3, "code_ge_2_32": 0.1, "special_bytes": 0.2},
+               "C10/end_to_end": {"handler_error": 0.4, "dispatcher_failure": 0.1, "shape_1": 0.1, "shape_2": 0.05, "shape_3": 0.1}},
 }
 
 CHECKS["C11"] = {
@@ -125,13 +129,18 @@ CHECKS["C11"] = {
     "rule": ("Codec half: maps of 0..8 pairs of arbitrary byte strings (empty, 1 KiB, binary, near-duplicate keys) through Encode/Decode: library round trip, output parsed by a protowire "
              "reference as message{map<string,string>=1} with exactly one entry per key and byte-identical to the canonical protobuf encoding of those entries, decoded by the real protobuf "
              "runtime (dynamicpb, proto2 descriptor built at run time) to the same map, and the runtime's own encoding (deterministic and not) decoded by Decode to the same map; arbitrary bytes "
-             "(7 malformation families) into Decode: map or error, never both, and whatever is accepted reads identically under the protobuf rules. Non-trivial: >= 1 pair with an empty/long/binary string or >= 2 pairs (round trip); >= 2 input bytes (decode)."),
+             "(7 malformation families) into Decode: map or error, never both, and whatever is accepted reads identically under the protobuf rules. Non-trivial: >= 1 pair with an empty/long/binary string or >= 2 pairs (round trip); >= 2 input bytes (decode). "
+             "End-to-end half: sequences of 2..6 unary/streaming calls on one simulated connection whose contexts are built the way applications do (a shared base context carrying metadata, per-call Add chains or AddPairs derived from the base, from a fresh context or from the previous call's context), "
+             "with a 1-byte writer buffer so the metadata packet is really on the wire, optionally abandoned between the metadata packet and the invoke (soft cancel while held at the scheduling point); every handler must see exactly the pairs of its own call's context under value semantics. "
+             "The wire-level form of abandonment (InvokeMetadata for stream n, Invoke for n+1) is in C02/stale_from_client."),
     "assumptions": ["protobuf-go v1.27.1 (module cache) is the 'real protobuf runtime'; proto2 syntax is used so that non-UTF-8 strings are not rejected by the runtime itself"],
     "subs": [
         {"test": "TestC11RoundTrip", "prop": "C11/codec_roundtrip", "quick": 40000, "thorough": 2000000, "shards_quick": 4, "shards_thorough": 8},
         {"test": "TestC11Decode", "prop": "C11/codec_decode", "quick": 60000, "thorough": 4000000, "shards_quick": 4, "shards_thorough": 8},
+        {"test": "TestC11EndToEnd", "prop": "C11/end_to_end", "pkg": "./conn", "quick": 8000, "thorough": 300000, "shards_quick": 16, "shards_thorough": 16, "gomaxprocs": 1},
     ],
-    "floors": {"C11/codec_roundtrip": {"empty_string": 0.2, "binary": 0.3, "long_string": 0.1}, "C11/codec_decode": {"rejected": 0.3, "accepted": 0.1}},
+    "floors": {"C11/codec_roundtrip": {"empty_string": 0.2, "binary": 0.3, "long_string": 0.1}, "C11/codec_decode": {"rejected": 0.3, "accepted": 0.1},
+               "C11/end_to_end": {"contexts_derived_from_shared_parent": 0.4, "abandoned_between_metadata_and_invoke": 0.05}},
 }
 
 E3_ASSUME = ["schedules are explored at the granularity of API calls, transport read/write completions (whole, 1 byte, 7 bytes, half) and the verif-tagged scheduling points; interleavings between statements with no point between them are not enumerated",
